@@ -982,7 +982,7 @@ func (s *Sim) readBeforeEvm(bt *Built) map[string]AcctObs {
 	t := bt.Spec
 	evm := t.Type == 6
 	for _, c := range s.contracts {
-		if string(c) == string(t.To) {
+		if string(c) == string(t.To) && t.Type == 1 { // only plain transfers to contracts are routed to the EVM
 			evm = true
 		}
 	}
